@@ -336,6 +336,7 @@ pub fn analyze<'a>(prog: &'a Program, tr: &'a [Ev]) -> Analysis<'a> {
     let mut rdepth: u16 = 0;
     let mut cur_op = 0usize;
     let mut in_poll = false;
+    let mut early_canary: HashMap<Inst, Vec<usize>> = HashMap::new();
     for (pos, ev) in tr.iter().enumerate() {
         // bracket bookkeeping: `encl[pos]` is the innermost bracket open *around* this event
         let mut encl_here = stack.last().copied();
@@ -362,7 +363,7 @@ pub fn analyze<'a>(prog: &'a Program, tr: &'a [Ev]) -> Analysis<'a> {
                             kind: SysKindTag::Plain,
                             flavour: Flavour::Ord,
                             script: 0,
-                            created_pos: 0,
+                            created_pos: usize::MAX,
                             mode: None,
                             explicit_despawn: None,
                             canary_drops: vec![],
@@ -378,7 +379,7 @@ pub fn analyze<'a>(prog: &'a Program, tr: &'a [Ev]) -> Analysis<'a> {
                     created_pos: pos,
                     mode: None,
                     explicit_despawn: None,
-                    canary_drops: vec![],
+                    canary_drops: early_canary.remove(inst).unwrap_or_default(),
                     published_pos: None,
                 };
                 if matches!(kind, SysKindTag::WorldReactor(_) | SysKindTag::EntityWorldReactor(_) | SysKindTag::Probe) {
@@ -570,8 +571,11 @@ pub fn analyze<'a>(prog: &'a Program, tr: &'a [Ev]) -> Analysis<'a> {
                 }
             }
             Ev::CanaryDrop { inst } => {
-                if let Some(i) = a.insts.get_mut(*inst) {
-                    i.canary_drops.push(pos);
+                match a.insts.get_mut(*inst) {
+                    Some(i) if i.created_pos != usize::MAX => i.canary_drops.push(pos),
+                    // (a reactor registered through `on` is only identified when its registration is published; it may
+                    // already have been collected by then)
+                    _ => early_canary.entry(*inst).or_default().push(pos),
                 }
             }
             Ev::Hook(h) => match h {
@@ -658,7 +662,10 @@ fn build_ledger(a: &mut Analysis) {
     for (i, c) in a.cmds.iter().enumerate() {
         let Some(post) = c.post else { continue };
         match &c.act {
-            RAct::Register { .. } | RAct::With { .. } | RAct::WrAdd { .. } | RAct::EwAdd { .. } => evs.push((post, LEv::Reg(i))),
+            // keyed at `Pre`: nothing but the registration itself runs between the two markers and its own commands, so
+            // whatever else happens inside the bracket (an entity released for auto-despawn may be collected by a
+            // collection the registration command performs) happens to a registration that is already in place
+            RAct::Register { .. } | RAct::With { .. } | RAct::WrAdd { .. } | RAct::EwAdd { .. } => evs.push((c.pre.unwrap_or(post), LEv::Reg(i))),
             RAct::Revoke { .. } | RAct::WrRemove { .. } | RAct::EwRemove { .. } => evs.push((post, LEv::Revoke(i))),
             _ => {}
         }
